@@ -20,7 +20,7 @@ if [ -f $src/demo${i}_test.go ]; then
   demo_kind=test
   dir=$(head -5 $src/demo${i}_test.go | grep -o 'dir: *[^ ]*' | head -1 | sed 's/dir: *//')
   [ -n "$dir" ] || dir=.
-  cp $src/demo${i}_test.go $wt/$dir/zz_demo${i}_test.go
+  cp $src/demo${i}_test.go $wt/$dir/${SEED_DEMO_PREFIX:-zz_}demo${i}_test.go
   run_demo() { (cd $wt/$dir && go test -vet=off -count=1 . >/tmp/seed_demo.$$ 2>&1); }
 elif [ -f $src/demo$i/main.go ]; then
   demo_kind=program
@@ -33,10 +33,10 @@ fi
 if run_demo; then base_ok=yes; else base_ok=no; fi
 # 2. apply; build; suite (without the demo file)
 git apply $patch || { echo "patch does not apply"; exit 2; }
-if [ $demo_kind = test ]; then mv $wt/$dir/zz_demo${i}_test.go /tmp/zz_demo.$$; else mv $wt/zz_demo$i /tmp/zz_demo.$$; fi
+if [ $demo_kind = test ]; then mv $wt/$dir/${SEED_DEMO_PREFIX:-zz_}demo${i}_test.go /tmp/zz_demo.$$; else mv $wt/zz_demo$i /tmp/zz_demo.$$; fi
 if go build ./... >/dev/null 2>&1; then build_ok=yes; else build_ok=no; fi
 if go test -vet=off -count=1 ./... >/tmp/seed_suite.$$ 2>&1; then suite_ok=yes; else suite_ok=no; fi
-if [ $demo_kind = test ]; then mv /tmp/zz_demo.$$ $wt/$dir/zz_demo${i}_test.go; else mv /tmp/zz_demo.$$ $wt/zz_demo$i; fi
+if [ $demo_kind = test ]; then mv /tmp/zz_demo.$$ $wt/$dir/${SEED_DEMO_PREFIX:-zz_}demo${i}_test.go; else mv /tmp/zz_demo.$$ $wt/zz_demo$i; fi
 # 3. with the change the demonstration fails
 if run_demo; then mut_fails=no; else mut_fails=yes; fi
 rm -f /tmp/seed_demo.$$ /tmp/seed_suite.$$
